@@ -877,6 +877,58 @@ def rule_dep(ctx):
     return dep_insts(ctx, "C20", [PATTERN + ".from_note_lists", PATTERN + ".group", COMBO + ".combinations"], skip_groups=())
 
 
+def stale_accumulators(fn_node):
+    """an accumulator that one loop narrows (`acc &= ..` / `acc = acc & ..` in an inner loop) and the enclosing loop then CONSUMES once
+    per iteration (`total |= acc`, `out.append(acc)`, ..) is a per-iteration value: it must be (re-)initialised inside that enclosing
+    loop.  Initialised before it, every iteration after the first starts from what the previous one left.  -> [(outer loop, name, init)]"""
+    out = []
+    for outer in [n for n in ast.walk(fn_node) if isinstance(n, ast.For)]:
+        inner = [n for st in outer.body for n in ast.walk(st) if isinstance(n, ast.For)]
+        for nm in sorted({x.target.id for l_ in inner for x in ast.walk(l_) if isinstance(x, ast.AugAssign) and isinstance(x.target, ast.Name) and
+                          isinstance(x.op, (ast.BitAnd, ast.Mult))}):
+            # consumed by a direct statement of the outer body, after an inner loop
+            consumed = [st for st in outer.body if not isinstance(st, ast.For) and any(isinstance(x, ast.Name) and x.id == nm and isinstance(x.ctx, ast.Load)
+                                                                                      for x in ast.walk(st)) and
+                        not (isinstance(st, ast.AugAssign) and isinstance(st.target, ast.Name) and st.target.id == nm)]
+            if not consumed:
+                continue
+            init_inside = any(isinstance(st, ast.Assign) and any(isinstance(t, ast.Name) and t.id == nm for t in st.targets) for st in outer.body)
+            inits = [st for st in ast.walk(fn_node) if isinstance(st, ast.Assign) and any(isinstance(t, ast.Name) and t.id == nm for t in st.targets)]
+            out.append((outer, nm, init_inside, inits))
+    return out
+
+
+def rule_r10(ctx) -> List[R.Inst]:
+    """the type filter accepts a row when it matches ANY of the filter's sequences; the per-sequence match is built by and-ing one test
+    per position, so it starts from all-true for EVERY sequence"""
+    M = ctx.M
+    rid = "C20.R10"
+    insts = []
+    # the clean tree has no such accumulator: the rule carries a positive and a negative example and is analysis-broken without them
+    ex = ast.parse("def bad(rows, d):\n    m = 1\n    t = 0\n    for r in rows:\n        for c in r:\n            m &= c\n        t |= m\n    return t\n"
+                   "def good(rows, d):\n    t = 0\n    for r in rows:\n        m = 1\n        for c in r:\n            m &= c\n        t |= m\n    return t\n")
+    got = [[(nm, inside) for _o, nm, inside, _i in stale_accumulators(f_)] for f_ in ex.body]
+    if got != [[("m", False)], [("m", True)]]:
+        return [R.undec(rid, "accumulator:self-example", "", 0, f"the rule no longer tells its own examples apart: {got}")]
+    insts.append(R.ok(rid, "accumulator:self-example", "", 0, idiom="hoisted initialisation recognised, the per-iteration one accepted"))
+    for cls in ("PtnFilterCombo", "PtnFilterChord", "PtnFilterType"):
+        f = M.fn(f"{FILTERS}.{cls}.filter")
+        file = M.mods[f.mod].rel
+        for outer, nm, inside, inits in stale_accumulators(f.node):
+            key = f"{cls}.filter:{nm}"
+            if inside:
+                insts.append(R.ok(rid, key, file, outer.lineno, idiom=f"'{nm}' starts afresh for every sequence of the filter"))
+            else:
+                insts.append(R.viol(rid, key, file, (inits[0] if inits else outer).lineno,
+                                    f"'{nm}' is narrowed once per position and consumed once per sequence of the filter, but it is initialised "
+                                    f"BEFORE the loop over the sequences: from the second sequence on it starts from the previous result, so only "
+                                    f"the first sequence can match (combinations go missing; with 'exclude', extra ones are reported)",
+                                    construct=f"{cls}.filter: '{nm}' initialised outside the per-sequence loop"))
+    if len(insts) == 1:
+        insts.append(R.ok(rid, "filters:no-per-sequence-accumulator", "", 0, idiom="no filter narrows an accumulator per position inside a per-sequence loop"))
+    return insts
+
+
 SPECS = [
     RuleSpec("C20.R1", rule_r1, 3, "A5", "Pattern.df is always offset-sorted with a positional index; positional unpack and record fields agree"),
     RuleSpec("C20.R2", rule_r2, 6, "A8", "skip grouped notes; the mask that marks is the mask that is appended; window shapes"),
@@ -887,6 +939,7 @@ SPECS = [
     RuleSpec("C20.R7", rule_r7, 1, "A7", "template option flags: no conditional expression swallowing an unconditional flag"),
     RuleSpec("C20.R9", rule_r9, 2, "A7", "AND_HIGHER / AND_LOWER generate the per-position ranges from the smallest / up to the largest given size"),
     RuleSpec("C20.R8", rule_r8, 1, "A7", "combined filters (a | b, a & b) are filters of the operands' class with the operands' parameters"),
+    RuleSpec("C20.R10", rule_r10, 2, "A8", "a per-sequence accumulator of a filter is initialised inside the per-sequence loop"),
     RuleSpec("C20.D", rule_dep, 1, "M0", "rules of the shared code (timing engine, list classes, stacker) that the operations of this property reach"),
 ]
 
